@@ -117,11 +117,21 @@ class HplExpression(HplAstObject):
         except TypeError as e:
             raise type_error_in_expr(e, self)
 
-    def _type_check(self, expr: 'HplExpression', t: DataType, *, force: bool = False):
+    def _type_check(
+        self,
+        expr: 'HplExpression',
+        t: DataType,
+        *,
+        force: bool = False,
+        attribute: Optional[str] = None,
+    ):
         try:
             new_type = expr.data_type.cast(t)
-            if force:
-                object.__setattr__(expr, 'data_type', new_type)
+            if force and new_type != expr.data_type:
+                # `expr` may be part of other trees, so it must not change;
+                # keep a narrowed copy of it instead
+                assert attribute is not None
+                object.__setattr__(self, attribute, expr.but(data_type=new_type))
         except TypeError as e:
             raise type_error_in_expr(e, self)
 
@@ -183,10 +193,10 @@ def _type_checker(
     *,
     force: bool = False,
 ) -> Callable[[HplExpression, Any, HplExpression], None]:
-    def validator(self: HplExpression, _attribute: Any, expr: HplExpression):
+    def validator(self: HplExpression, attribute: Any, expr: HplExpression):
         if not isinstance(expr, HplExpression):
             raise TypeError(f'expected expression, got {expr!r}')
-        self._type_check(expr, t, force=force)
+        self._type_check(expr, t, force=force, attribute=attribute.name)
 
     return validator
 
@@ -730,8 +740,8 @@ class HplUnaryOperator(HplExpression):
     operand: HplExpression = field(validator=instance_of(HplExpression))
 
     @operand.validator
-    def _check_operand(self, _attribute, arg: HplExpression):
-        self._type_check(arg, self.operator.parameter, force=True)
+    def _check_operand(self, attribute, arg: HplExpression):
+        self._type_check(arg, self.operator.parameter, force=True, attribute=attribute.name)
 
     def __attrs_post_init__(self):
         object.__setattr__(self, 'data_type', self.operator.result)
@@ -1038,12 +1048,12 @@ class HplBinaryOperator(HplExpression):
     operand2: HplExpression = field(validator=instance_of(HplExpression))
 
     @operand1.validator
-    def _check_operand1(self, _attribute, arg: HplExpression):
-        self._type_check(arg, self.operator.parameter1, force=True)
+    def _check_operand1(self, attribute, arg: HplExpression):
+        self._type_check(arg, self.operator.parameter1, force=True, attribute=attribute.name)
 
     @operand2.validator
-    def _check_operand2(self, _attribute, arg: HplExpression):
-        self._type_check(arg, self.operator.parameter2, force=True)
+    def _check_operand2(self, attribute, arg: HplExpression):
+        self._type_check(arg, self.operator.parameter2, force=True, attribute=attribute.name)
 
     def __attrs_post_init__(self):
         object.__setattr__(self, 'data_type', self.operator.result)
